@@ -2,6 +2,863 @@
    when the model was last validated against the code). Compared with the regenerated VGen.SkelC10 in VProps/PinC10.lean. -/
 namespace VPins.C10
 
+def eventauth_AuthEvents_AddEvent : List String := [
+  "func func(event PDU) error",
+  "if event.StateKey() == nil {",
+  "return fmt.Errorf(\"AddEvent: event %q does not have a state key\", event.Type())",
+  "}",
+  "a.roomIDs[event.RoomID().String()] = struct{}{}",
+  "a.events[StateKeyTuple{event.Type(), *event.StateKey()}] = event",
+  "return nil"
+]
+
+def eventauth_AuthEvents_Clear : List String := [
+  "func func()",
+  "for k := range a.events {",
+  "delete(a.events, k)",
+  "}"
+]
+
+def eventauth_AuthEvents_Create : List String := [
+  "func func() (PDU, error)",
+  "return a.events[StateKeyTuple{spec.MRoomCreate, \"\"}], nil"
+]
+
+def eventauth_AuthEvents_JoinRules : List String := [
+  "func func() (PDU, error)",
+  "return a.events[StateKeyTuple{spec.MRoomJoinRules, \"\"}], nil"
+]
+
+def eventauth_AuthEvents_Member : List String := [
+  "func func(stateKey spec.SenderID) (PDU, error)",
+  "return a.events[StateKeyTuple{spec.MRoomMember, string(stateKey)}], nil"
+]
+
+def eventauth_AuthEvents_PowerLevels : List String := [
+  "func func() (PDU, error)",
+  "return a.events[StateKeyTuple{spec.MRoomPowerLevels, \"\"}], nil"
+]
+
+def eventauth_AuthEvents_ThirdPartyInvite : List String := [
+  "func func(stateKey string) (PDU, error)",
+  "return a.events[StateKeyTuple{spec.MRoomThirdPartyInvite, stateKey}], nil"
+]
+
+def eventauth_AuthEvents_Valid : List String := [
+  "func func() bool",
+  "return len(a.roomIDs) <= 1"
+]
+
+def eventauth_NotAllowed_Error : List String := [
+  "func func() string",
+  "return \"eventauth: \" + a.Message"
+]
+
+def eventauth_StateNeeded_AuthEventReferences : List String := [
+  "func func(provider AuthEventProvider) (refs []string, err error)",
+  "refs = make([]string, 0, 5)",
+  "var e PDU",
+  "if s.Create {",
+  "if e, err = provider.Create(); err != nil {",
+  "return",
+  "} else if e != nil {",
+  "refs = append(refs, e.EventID())",
+  "}",
+  "}",
+  "if s.JoinRules {",
+  "if e, err = provider.JoinRules(); err != nil {",
+  "return",
+  "} else if e != nil {",
+  "refs = append(refs, e.EventID())",
+  "}",
+  "}",
+  "if s.PowerLevels {",
+  "if e, err = provider.PowerLevels(); err != nil {",
+  "return",
+  "} else if e != nil {",
+  "refs = append(refs, e.EventID())",
+  "}",
+  "}",
+  "for _, userID := range s.Member {",
+  "if e, err = provider.Member(spec.SenderID(userID)); err != nil {",
+  "return",
+  "} else if e != nil {",
+  "refs = append(refs, e.EventID())",
+  "}",
+  "}",
+  "for _, token := range s.ThirdPartyInvite {",
+  "if e, err = provider.ThirdPartyInvite(token); err != nil {",
+  "return",
+  "} else if e != nil {",
+  "refs = append(refs, e.EventID())",
+  "}",
+  "}",
+  "return"
+]
+
+def eventauth_StateNeeded_Tuples : List String := [
+  "func func() (res []StateKeyTuple)",
+  "if s.Create {",
+  "res = append(res, StateKeyTuple{spec.MRoomCreate, \"\"})",
+  "}",
+  "if s.JoinRules {",
+  "res = append(res, StateKeyTuple{spec.MRoomJoinRules, \"\"})",
+  "}",
+  "if s.PowerLevels {",
+  "res = append(res, StateKeyTuple{spec.MRoomPowerLevels, \"\"})",
+  "}",
+  "for _, senderID := range s.Member {",
+  "res = append(res, StateKeyTuple{spec.MRoomMember, senderID})",
+  "}",
+  "for _, token := range s.ThirdPartyInvite {",
+  "res = append(res, StateKeyTuple{spec.MRoomThirdPartyInvite, token})",
+  "}",
+  "return"
+]
+
+def eventauth__Allowed : List String := [
+  "func func(event PDU, authEvents AuthEventProvider, userIDQuerier spec.UserIDForSender) error",
+  "if !authEvents.Valid() {",
+  "return errorf(\"authEvents contains events from different rooms\")",
+  "}",
+  "return newAllowerContext(authEvents, userIDQuerier, event.RoomID()).allowed(event)"
+]
+
+def eventauth__NewAuthEvents : List String := [
+  "func func(events []PDU) (*AuthEvents, error)",
+  "a := AuthEvents{events: make(map[StateKeyTuple]PDU, len(events)), roomIDs: make(map[string]struct{})}",
+  "for _, e := range events {",
+  "if err := a.AddEvent(e); err != nil {",
+  "return nil, err",
+  "}",
+  "}",
+  "return &a, nil"
+]
+
+def eventauth__StateNeededForAuth : List String := [
+  "func func(events []PDU) (result StateNeeded)",
+  "for _, event := range events {",
+  "var content *membershipContent",
+  "if event.Type() == spec.MRoomMember {",
+  "_ = json.Unmarshal(event.Content(), &content)",
+  "}",
+  "_ = accumulateStateNeeded(&result, event.Type(), event.SenderID(), event.StateKey(), content)",
+  "}",
+  "result.Member = util.UniqueStrings(result.Member)",
+  "result.ThirdPartyInvite = util.UniqueStrings(result.ThirdPartyInvite)",
+  "return"
+]
+
+def eventauth__StateNeededForProtoEvent : List String := [
+  "func func(protoEvent *ProtoEvent) (result StateNeeded, err error)",
+  "var content *membershipContent",
+  "if protoEvent.Type == spec.MRoomMember {",
+  "if err = json.Unmarshal(protoEvent.Content, &content); err != nil {",
+  "err = errorf(\"unparseable member event content: %s\", err.Error())",
+  "return",
+  "}",
+  "}",
+  "err = accumulateStateNeeded(&result, protoEvent.Type, spec.SenderID(protoEvent.SenderID), protoEvent.StateKey, content)",
+  "result.Member = util.UniqueStrings(result.Member)",
+  "result.ThirdPartyInvite = util.UniqueStrings(result.ThirdPartyInvite)",
+  "return"
+]
+
+def eventauth__accumulateStateNeeded : List String := [
+  "func func(result *StateNeeded, eventType string, sender spec.SenderID, stateKey *string, content *membershipContent) (err error)",
+  "switch eventType {",
+  "case spec.MRoomCreate:",
+  "case spec.MRoomAliases:",
+  "result.Create = true",
+  "case spec.MRoomMember:",
+  "if content == nil {",
+  "err = errorf(\"missing memberContent for m.room.member event\")",
+  "return",
+  "}",
+  "result.Create = true",
+  "result.PowerLevels = true",
+  "result.Member = append(result.Member, string(sender))",
+  "if stateKey != nil {",
+  "result.Member = append(result.Member, *stateKey)",
+  "}",
+  "if content.Membership == spec.Join || content.Membership == spec.Knock || content.Membership == spec.Invite {",
+  "result.JoinRules = true",
+  "}",
+  "if content.AuthorizedVia != \"\" {",
+  "result.Member = append(result.Member, content.AuthorizedVia)",
+  "}",
+  "if content.ThirdPartyInvite != nil {",
+  "token, tokErr := thirdPartyInviteToken(content.ThirdPartyInvite)",
+  "if tokErr != nil {",
+  "err = errorf(\"could not get third-party token: %s\", tokErr)",
+  "return",
+  "}",
+  "result.ThirdPartyInvite = append(result.ThirdPartyInvite, token)",
+  "}",
+  "default:",
+  "result.Create = true",
+  "result.PowerLevels = true",
+  "result.Member = append(result.Member, string(sender))",
+  "}",
+  "return"
+]
+
+def eventauth__allowRestrictedJoins : List String := [
+  "func func() error",
+  "return nil"
+]
+
+def eventauth__checkEventLevels : List String := [
+  "func func(senderLevel int64, oldPowerLevels, newPowerLevels PowerLevelContent) error",
+  "type levelPair struct { old int64 new int64 }",
+  "levelChecks := []levelPair{{oldPowerLevels.Ban, newPowerLevels.Ban}, {oldPowerLevels.Invite, newPowerLevels.Invite}, {oldPowerLevels.Kick, newPowerLevels.Kick}, {oldPowerLevels.Redact, newPowerLevels.Redact}, {oldPowerLevels.StateDefault, newPowerLevels.StateDefault}, {oldPowerLevels.EventsDefault, newPowerLevels.EventsDefault}, {oldPowerLevels.UsersDefault, newPowerLevels.UsersDefault}}",
+  "const ( isStateEvent = false )",
+  "for eventType := range newPowerLevels.Events {",
+  "levelChecks = append(levelChecks, levelPair{oldPowerLevels.EventLevel(eventType, isStateEvent), newPowerLevels.EventLevel(eventType, isStateEvent)})",
+  "}",
+  "for eventType := range oldPowerLevels.Events {",
+  "levelChecks = append(levelChecks, levelPair{oldPowerLevels.EventLevel(eventType, isStateEvent), newPowerLevels.EventLevel(eventType, isStateEvent)})",
+  "}",
+  "for _, level := range levelChecks {",
+  "if level.old == level.new {",
+  "continue",
+  "}",
+  "if senderLevel < level.new {",
+  "return errorf(\"sender with level %d is not allowed to change level from %d to %d\"+\" because the new level is above the level of the sender\", senderLevel, level.old, level.new)",
+  "}",
+  "if senderLevel < level.old {",
+  "return errorf(\"sender with level %d is not allowed to change level from %d to %d\"+\" because the current level is above the level of the sender\", senderLevel, level.old, level.new)",
+  "}",
+  "}",
+  "return nil"
+]
+
+def eventauth__checkKnocking : List String := [
+  "func func(roomVer, sender, target, joinRule, prevMembership string) error",
+  "supported := joinRule == spec.Knock || joinRule == spec.KnockRestricted",
+  "if !supported {",
+  "return errorf(\"%q is not allowed to change the membership of %q from %q as room version %q does not support knocking on rooms with join rule %q\", sender, target, prevMembership, roomVer, joinRule)",
+  "}",
+  "switch prevMembership {",
+  "case spec.Join, spec.Invite, spec.Ban:",
+  "return errorf(\"%q is not allowed to change the membership of %q from %q as sender is already joined/invited/banned\", sender, target, prevMembership)",
+  "}",
+  "return nil"
+]
+
+def eventauth__checkPowerLevelEventV1 : List String := [
+  "func func(sender string, createEvent PDU, oldPowerLevels, newPowerLevels PowerLevelContent) error",
+  "return nil"
+]
+
+def eventauth__checkPowerLevelEventV2 : List String := [
+  "func func(sender string, createEvent PDU, oldPowerLevels, newPowerLevels PowerLevelContent) error",
+  "senderLevel := oldPowerLevels.UserLevel(spec.SenderID(sender))",
+  "type levelPair struct { old int64 new int64 userID string }",
+  "notificationLevelChecks := []levelPair{}",
+  "for notification := range newPowerLevels.Notifications {",
+  "notificationLevelChecks = append(notificationLevelChecks, levelPair{oldPowerLevels.NotificationLevel(notification), newPowerLevels.NotificationLevel(notification), notification})",
+  "}",
+  "for notification := range oldPowerLevels.Notifications {",
+  "notificationLevelChecks = append(notificationLevelChecks, levelPair{oldPowerLevels.NotificationLevel(notification), newPowerLevels.NotificationLevel(notification), notification})",
+  "}",
+  "for _, level := range notificationLevelChecks {",
+  "if level.old == level.new {",
+  "continue",
+  "}",
+  "if senderLevel < level.new {",
+  "return errorf(\"sender with level %d is not allowed change notification level from %d to %d\"+\" because the new level is above the level of the sender\", senderLevel, level.old, level.new)",
+  "}",
+  "if senderLevel <= level.old {",
+  "return errorf(\"sender with level %d is not allowed to change notification level from %d to %d\"+\" because the old level is equal to or above the level of the sender\", senderLevel, level.old, level.new)",
+  "}",
+  "}",
+  "return nil"
+]
+
+def eventauth__checkPowerLevelEventV3 : List String := [
+  "func func(sender string, createEvent PDU, oldPowerLevels, newPowerLevels PowerLevelContent) error",
+  "if err := checkPowerLevelEventV2(sender, createEvent, oldPowerLevels, newPowerLevels); err != nil {",
+  "return err",
+  "}",
+  "var content CreateContent",
+  "if err := json.Unmarshal(createEvent.Content(), &content); err != nil {",
+  "return errorf(\"checkPowerLevelEventV3 unparseable create event content: %s\", err.Error())",
+  "}",
+  "creators := []string{string(createEvent.SenderID())}",
+  "creators = append(creators, content.AdditionalCreators...)",
+  "for userID := range newPowerLevels.Users {",
+  "if slices.Contains(creators, userID) {",
+  "return &EventValidationError{Code: 400, Message: fmt.Sprintf(\"new power levels event must not contain creator '%s'\", userID)}",
+  "}",
+  "}",
+  "return nil"
+]
+
+def eventauth__checkUserLevels : List String := [
+  "func func(senderLevel int64, senderID spec.SenderID, oldPowerLevels, newPowerLevels PowerLevelContent) error",
+  "type levelPair struct { old int64 new int64 }",
+  "userLevelChecks := map[spec.SenderID]levelPair{}",
+  "for userSenderID := range newPowerLevels.Users {",
+  "userLevelChecks[spec.SenderID(userSenderID)] = levelPair{old: oldPowerLevels.UserLevel(spec.SenderID(userSenderID)), new: newPowerLevels.UserLevel(spec.SenderID(userSenderID))}",
+  "}",
+  "for userSenderID := range oldPowerLevels.Users {",
+  "userLevelChecks[spec.SenderID(userSenderID)] = levelPair{old: oldPowerLevels.UserLevel(spec.SenderID(userSenderID)), new: newPowerLevels.UserLevel(spec.SenderID(userSenderID))}",
+  "}",
+  "for userSenderID, level := range userLevelChecks {",
+  "if level.old == level.new {",
+  "continue",
+  "}",
+  "if senderLevel < level.new {",
+  "return errorf(\"sender %q with level %d is not allowed change user %q level from %d to %d\"+\" because the new level is above the level of the sender\", senderID, senderLevel, userSenderID, level.old, level.new)",
+  "}",
+  "if userSenderID == senderID {",
+  "continue",
+  "}",
+  "if senderLevel <= level.old {",
+  "return errorf(\"sender %q with level %d is not allowed to change user %q level from %d to %d\"+\" because the old level is equal to or above the level of the sender\", senderID, senderLevel, userSenderID, level.old, level.new)",
+  "}",
+  "}",
+  "return nil"
+]
+
+def eventauth__disallowKnocking : List String := [
+  "func func(roomVer, sender, target, joinRule, prevMembership string) error",
+  "if sender == target {",
+  "return errorf(\"%q is not allowed to change their membership from %q as room version %q does not support knocking on rooms with join rule %q\", sender, prevMembership, roomVer, joinRule)",
+  "}",
+  "return errorf(\"%q is not allowed to change the membership of %q from %q as room version %q does not support knocking on rooms with join rule %q\", sender, target, prevMembership, roomVer, joinRule)"
+]
+
+def eventauth__disallowRestrictedJoins : List String := [
+  "func func() error",
+  "return errorf(\"restricted joins are not supported in this room version\")"
+]
+
+def eventauth__errorf : List String := [
+  "func func(message string, args ...interface{}) error",
+  "return &NotAllowed{Message: fmt.Sprintf(message, args...)}"
+]
+
+def eventauth__newAllowerContext : List String := [
+  "func func(provider AuthEventProvider, userIDQuerier spec.UserIDForSender, roomID spec.RoomID) *allowerContext",
+  "a := &allowerContext{userIDQuerier: userIDQuerier, roomID: roomID}",
+  "a.update(provider)",
+  "return a"
+]
+
+def eventauth__thirdPartyInviteToken : List String := [
+  "func func(thirdPartyInvite *MemberThirdPartyInvite) (string, error)",
+  "if thirdPartyInvite.Signed.Token == \"\" {",
+  "return \"\", fmt.Errorf(\"missing 'third_party_invite.signed.token' JSON key\")",
+  "}",
+  "return thirdPartyInvite.Signed.Token, nil"
+]
+
+def eventauth_allowerContext_aliasEventAllowed : List String := [
+  "func func(event PDU) error",
+  "sender, err := a.userIDQuerier(a.roomID, event.SenderID())",
+  "if err != nil {",
+  "return err",
+  "}",
+  "if event.RoomID().String() != a.create.roomID {",
+  "return errorf(\"create event has different roomID: %q (%s) != %q (%s)\", event.RoomID().String(), event.EventID(), a.create.roomID, a.create.eventID)",
+  "}",
+  "if err := a.create.DomainAllowed(string(sender.Domain())); err != nil {",
+  "return err",
+  "}",
+  "if event.StateKey() == nil {",
+  "return errorf(\"alias event must be a state event\")",
+  "}",
+  "switch event.Version() {",
+  "case RoomVersionPseudoIDs:",
+  "if !event.StateKeyEquals(string(event.SenderID())) {",
+  "return errorf(\"alias state_key does not match sender domain, %q != %q\", event.SenderID(), *event.StateKey())",
+  "}",
+  "default:",
+  "if !event.StateKeyEquals(string(sender.Domain())) {",
+  "return errorf(\"alias state_key does not match sender domain, %q != %q\", sender.Domain(), *event.StateKey())",
+  "}",
+  "}",
+  "return nil"
+]
+
+def eventauth_allowerContext_allowed : List String := [
+  "func func(event PDU) error",
+  "switch event.Type() {",
+  "case spec.MRoomCreate:",
+  "return a.createEventAllowed(event)",
+  "case spec.MRoomAliases:",
+  "return a.aliasEventAllowed(event)",
+  "case spec.MRoomMember:",
+  "return a.memberEventAllowed(event)",
+  "case spec.MRoomPowerLevels:",
+  "return a.powerLevelsEventAllowed(event)",
+  "case spec.MRoomRedaction:",
+  "return a.redactEventAllowed(event)",
+  "default:",
+  "return a.defaultEventAllowed(event)",
+  "}"
+]
+
+def eventauth_allowerContext_createEventAllowed : List String := [
+  "func func(event PDU) error",
+  "if !event.StateKeyEquals(\"\") {",
+  "return errorf(\"create event state key is not empty: %v\", event.StateKey())",
+  "}",
+  "if len(event.PrevEventIDs()) > 0 {",
+  "return errorf(\"create event must be the first event in the room: found %d prev_events\", len(event.PrevEventIDs()))",
+  "}",
+  "sender, err := a.userIDQuerier(a.roomID, event.SenderID())",
+  "if err != nil {",
+  "return err",
+  "}",
+  "verImpl, err := GetRoomVersion(event.Version())",
+  "if err != nil {",
+  "return nil",
+  "}",
+  "if err = verImpl.CheckCreateEvent(event, *sender, KnownRoomVersion); err != nil {",
+  "return err",
+  "}",
+  "return nil"
+]
+
+def eventauth_allowerContext_defaultEventAllowed : List String := [
+  "func func(event PDU) error",
+  "allower, err := a.newEventAllower(event.SenderID())",
+  "if err != nil {",
+  "return err",
+  "}",
+  "return allower.commonChecks(event)"
+]
+
+def eventauth_allowerContext_memberEventAllowed : List String := [
+  "func func(event PDU) error",
+  "allower, err := a.newMembershipAllower(a.provider, event)",
+  "if err != nil {",
+  "return err",
+  "}",
+  "return allower.membershipAllowed(event)"
+]
+
+def eventauth_allowerContext_newEventAllower : List String := [
+  "func func(senderID spec.SenderID) (e eventAllower, err error)",
+  "e.allowerContext = a",
+  "if e.member, err = NewMemberContentFromAuthEvents(a.provider, senderID); err != nil {",
+  "return",
+  "}",
+  "return"
+]
+
+def eventauth_allowerContext_newMembershipAllower : List String := [
+  "func func(authEvents AuthEventProvider, event PDU) (m membershipAllower, err error)",
+  "m.allowerContext = a",
+  "m.joinRule = a.joinRule",
+  "m.roomVersionImpl, err = GetRoomVersion(event.Version())",
+  "if err != nil {",
+  "return",
+  "}",
+  "stateKey := event.StateKey()",
+  "if stateKey == nil {",
+  "err = errorf(\"m.room.member must be a state event\")",
+  "return",
+  "}",
+  "m.targetID = *stateKey",
+  "m.senderID = string(event.SenderID())",
+  "if m.newMember, err = NewMemberContentFromEvent(event); err != nil {",
+  "return",
+  "}",
+  "if m.oldMember, err = NewMemberContentFromAuthEvents(authEvents, spec.SenderID(m.targetID)); err != nil {",
+  "return",
+  "}",
+  "if m.senderMember, err = NewMemberContentFromAuthEvents(authEvents, spec.SenderID(m.senderID)); err != nil {",
+  "return",
+  "}",
+  "if m.newMember.ThirdPartyInvite != nil && m.newMember.Membership == spec.Invite {",
+  "var token string",
+  "if token, err = thirdPartyInviteToken(m.newMember.ThirdPartyInvite); err != nil {",
+  "err = errorf(\"could not get third-party token: %s\", err)",
+  "return",
+  "}",
+  "if m.thirdPartyInvite, err = NewThirdPartyInviteContentFromAuthEvents(authEvents, token); err != nil {",
+  "return",
+  "}",
+  "}",
+  "return"
+]
+
+def eventauth_allowerContext_powerLevelsEventAllowed : List String := [
+  "func func(event PDU) error",
+  "allower, err := a.newEventAllower(event.SenderID())",
+  "if err != nil {",
+  "return err",
+  "}",
+  "if err = allower.commonChecks(event); err != nil {",
+  "return err",
+  "}",
+  "newPowerLevels, err := NewPowerLevelContentFromEvent(event)",
+  "if err != nil {",
+  "return err",
+  "}",
+  "for senderID := range newPowerLevels.Users {",
+  "sender, err := a.userIDQuerier(a.roomID, spec.SenderID(senderID))",
+  "if err != nil {",
+  "return err",
+  "}",
+  "if sender == nil || !isValidUserID(sender.String()) {",
+  "return errorf(\"Not a valid user ID: %q\", senderID)",
+  "}",
+  "}",
+  "oldPowerLevels := a.powerLevels",
+  "senderLevel := a.userPowerLevel(event.SenderID())",
+  "if err = checkEventLevels(senderLevel, oldPowerLevels, newPowerLevels); err != nil {",
+  "return err",
+  "}",
+  "verImpl, err := GetRoomVersion(event.Version())",
+  "if err != nil {",
+  "return nil",
+  "}",
+  "if err = verImpl.CheckPowerLevelEvent(string(event.SenderID()), a.createEvent, oldPowerLevels, newPowerLevels); err != nil {",
+  "return err",
+  "}",
+  "return checkUserLevels(senderLevel, event.SenderID(), oldPowerLevels, newPowerLevels)"
+]
+
+def eventauth_allowerContext_redactEventAllowed : List String := [
+  "func func(event PDU) error",
+  "allower, err := a.newEventAllower(event.SenderID())",
+  "if err != nil {",
+  "return err",
+  "}",
+  "if err = allower.commonChecks(event); err != nil {",
+  "return err",
+  "}",
+  "roomVersion := allower.create.RoomVersion",
+  "if roomVersion != nil && *roomVersion != \"1\" && *roomVersion != \"2\" {",
+  "return nil",
+  "}",
+  "redactDomain, err := domainFromID(event.Redacts())",
+  "if err != nil {",
+  "return err",
+  "}",
+  "sender, err := a.userIDQuerier(a.roomID, event.SenderID())",
+  "if err != nil {",
+  "return err",
+  "}",
+  "if string(sender.Domain()) == redactDomain {",
+  "return nil",
+  "}",
+  "senderLevel := allower.userPowerLevel(event.SenderID())",
+  "redactLevel := allower.powerLevels.Redact",
+  "if senderLevel >= redactLevel {",
+  "return nil",
+  "}",
+  "return errorf(\"%q is not allowed to redact message from %q. %d < %d\", sender, redactDomain, senderLevel, redactLevel)"
+]
+
+def eventauth_allowerContext_resetCreate : List String := [
+  "func func()",
+  "a.create = CreateContent{}",
+  "a.creators = nil",
+  "a.privilegedCreators = false"
+]
+
+def eventauth_allowerContext_update : List String := [
+  "func func(provider AuthEventProvider)",
+  "if provider != a.provider {",
+  "a.provider = provider",
+  "a.createEvent, a.powerLevelsEvent, a.joinRuleEvent = nil, nil, nil",
+  "a.resetCreate()",
+  "a.powerLevels = PowerLevelContent{}",
+  "a.joinRule = JoinRuleContent{}",
+  "}",
+  "if e, _ := provider.Create(); a.createEvent == nil || a.createEvent != e {",
+  "if c, err := NewCreateContentFromAuthEvents(provider, a.userIDQuerier); err == nil {",
+  "a.createEvent = e",
+  "a.create = c",
+  "a.creators = CreatorsFromCreateEvent(e)",
+  "verImpl := MustGetRoomVersion(e.Version())",
+  "a.privilegedCreators = verImpl.PrivilegedCreators()",
+  "} else {",
+  "a.createEvent = nil",
+  "a.resetCreate()",
+  "}",
+  "}",
+  "if e, _ := provider.PowerLevels(); a.powerLevelsEvent == nil || a.powerLevelsEvent != e {",
+  "creator := \"\"",
+  "if a.createEvent != nil {",
+  "creator = string(a.createEvent.SenderID())",
+  "}",
+  "if p, err := NewPowerLevelContentFromAuthEvents(provider, creator); err == nil {",
+  "a.powerLevelsEvent = e",
+  "a.powerLevels = p",
+  "} else {",
+  "a.powerLevelsEvent = nil",
+  "a.powerLevels = PowerLevelContent{}",
+  "}",
+  "}",
+  "if e, _ := provider.JoinRules(); a.joinRuleEvent == nil || a.joinRuleEvent != e {",
+  "if j, err := NewJoinRuleContentFromAuthEvents(provider); err == nil {",
+  "a.joinRuleEvent, _ = provider.JoinRules()",
+  "a.joinRule = j",
+  "} else {",
+  "a.joinRuleEvent = nil",
+  "a.joinRule = JoinRuleContent{}",
+  "}",
+  "}"
+]
+
+def eventauth_allowerContext_userPowerLevel : List String := [
+  "func func(userID spec.SenderID) int64",
+  "if a.privilegedCreators {",
+  "if slices.Contains(a.creators, string(userID)) {",
+  "return CreatorPowerLevel",
+  "}",
+  "}",
+  "if a.powerLevelsEvent == nil {",
+  "if userID == a.createEvent.SenderID() {",
+  "return CreatorPowerLevel - 1",
+  "}",
+  "return 0",
+  "}",
+  "return a.powerLevels.UserLevel(userID)"
+]
+
+def eventauth_eventAllower_commonChecks : List String := [
+  "func func(event PDU) error",
+  "if event.RoomID().String() != e.create.roomID {",
+  "return errorf(\"create event has different roomID1: %q (%s) != %q (%s)\", event.RoomID().String(), event.EventID(), e.create.roomID, e.create.eventID)",
+  "}",
+  "stateKey := event.StateKey()",
+  "userID, err := e.userIDQuerier(e.roomID, event.SenderID())",
+  "if err != nil {",
+  "return err",
+  "}",
+  "if userID == nil {",
+  "return errorf(\"userID not found for sender %q in room %q\", event.SenderID(), event.RoomID().String())",
+  "}",
+  "if err := e.create.UserIDAllowed(*userID); err != nil {",
+  "return err",
+  "}",
+  "if e.member.Membership != spec.Join {",
+  "return errorf(\"sender %q not in room\", event.SenderID())",
+  "}",
+  "senderLevel := e.userPowerLevel(event.SenderID())",
+  "eventLevel := e.powerLevels.EventLevel(event.Type(), stateKey != nil)",
+  "if senderLevel < eventLevel {",
+  "return errorf(\"sender %q is not allowed to send event. %d < %d\", event.SenderID(), senderLevel, eventLevel)",
+  "}",
+  "if event.Type() != spec.MRoomThirdPartyInvite && stateKey != nil && len(*stateKey) > 0 && (*stateKey)[0] == '@' {",
+  "if spec.SenderID(*stateKey) != event.SenderID() {",
+  "return errorf(\"sender %q is not allowed to modify the state belonging to %q\", event.SenderID(), *stateKey)",
+  "}",
+  "}",
+  "return nil"
+]
+
+def eventauth_membershipAllower_membershipAllowed : List String := [
+  "func func(event PDU) error",
+  "if m.create.roomID != event.RoomID().String() {",
+  "return errorf(\"create event has different roomID: %q (%s) != %q (%s)\", event.RoomID().String(), event.EventID(), m.create.roomID, m.create.eventID)",
+  "}",
+  "var sender *spec.UserID",
+  "var err error",
+  "if event.Type() == spec.MRoomMember {",
+  "mapping := membershipContent{}",
+  "if err := json.Unmarshal(event.Content(), &mapping); err != nil {",
+  "return err",
+  "}",
+  "if mapping.MXIDMapping != nil && event.Version() == RoomVersionPseudoIDs {",
+  "sender, err = spec.NewUserID(mapping.MXIDMapping.UserID, true)",
+  "if err != nil {",
+  "return err",
+  "}",
+  "}",
+  "}",
+  "if sender == nil {",
+  "sender, err = m.userIDQuerier(m.roomID, spec.SenderID(m.senderID))",
+  "if err != nil {",
+  "return err",
+  "}",
+  "}",
+  "if sender == nil {",
+  "return errorf(\"userID not found for sender %q in room %q\", m.senderID, event.RoomID().String())",
+  "}",
+  "if err := m.create.UserIDAllowed(*sender); err != nil {",
+  "return err",
+  "}",
+  "if m.targetID == string(m.createEvent.SenderID()) && m.newMember.Membership == spec.Join && m.senderID == m.targetID && len(event.PrevEventIDs()) == 1 {",
+  "prevEventID := event.PrevEventIDs()[0]",
+  "if prevEventID == m.create.eventID {",
+  "return nil",
+  "}",
+  "}",
+  "if m.newMember.Membership == spec.Invite && m.newMember.ThirdPartyInvite != nil {",
+  "return m.membershipAllowedFromThirdPartyInvite()",
+  "}",
+  "if m.targetID == m.senderID {",
+  "return m.membershipAllowedSelf()",
+  "}",
+  "return m.membershipAllowedOther()"
+]
+
+def eventauth_membershipAllower_membershipAllowedFromThirdPartyInvite : List String := [
+  "func func() error",
+  "if m.targetID != m.newMember.ThirdPartyInvite.Signed.MXID {",
+  "return errorf(\"The invite target %s doesn't match with the Matrix ID provided by the identity server %s\", m.targetID, m.newMember.ThirdPartyInvite.Signed.MXID)",
+  "}",
+  "marshalledSigned, err := json.Marshal(m.newMember.ThirdPartyInvite.Signed)",
+  "if err != nil {",
+  "return err",
+  "}",
+  "for _, publicKey := range m.thirdPartyInvite.PublicKeys {",
+  "for domain, signatures := range m.newMember.ThirdPartyInvite.Signed.Signatures {",
+  "for keyID := range signatures {",
+  "if strings.HasPrefix(keyID, \"ed25519\") {",
+  "if err = VerifyJSON(domain, KeyID(keyID), ed25519.PublicKey(publicKey.PublicKey), marshalledSigned); err == nil {",
+  "return nil",
+  "}",
+  "}",
+  "}",
+  "}",
+  "}",
+  "return errorf(\"Couldn't verify signature on third-party invite for %s\", m.targetID)"
+]
+
+def eventauth_membershipAllower_membershipAllowedOther : List String := [
+  "func func() error",
+  "senderLevel := m.userPowerLevel(spec.SenderID(m.senderID))",
+  "targetLevel := m.userPowerLevel(spec.SenderID(m.targetID))",
+  "if m.senderMember.Membership != spec.Join {",
+  "return errorf(\"sender %q is not in the room\", m.senderID)",
+  "}",
+  "switch m.newMember.Membership {",
+  "case spec.Ban:",
+  "if senderLevel >= m.powerLevels.Ban && senderLevel > targetLevel {",
+  "return nil",
+  "}",
+  "return m.membershipFailed(\"sender has insufficient power to ban (sender level %d, target level %d, ban level %d)\", senderLevel, targetLevel, m.powerLevels.Ban)",
+  "case spec.Leave:",
+  "if m.oldMember.Membership == spec.Ban {",
+  "if senderLevel >= m.powerLevels.Ban {",
+  "return nil",
+  "}",
+  "return m.membershipFailed(\"sender has insufficient power to unban (sender level %d, ban level %d)\", senderLevel, m.powerLevels.Ban)",
+  "}",
+  "if senderLevel >= m.powerLevels.Kick && senderLevel > targetLevel {",
+  "return nil",
+  "}",
+  "return m.membershipFailed(\"sender has insufficient power to kick (sender level %d, target level %d, kick level %d)\", senderLevel, targetLevel, m.powerLevels.Kick)",
+  "case spec.Invite:",
+  "if senderLevel < m.powerLevels.Invite {",
+  "return m.membershipFailed(\"sender has insufficient power to invite (sender level %d, invite level %d)\", senderLevel, m.powerLevels.Invite)",
+  "}",
+  "switch m.oldMember.Membership {",
+  "case spec.Join, spec.Ban:",
+  "return m.membershipFailed(\"target cannot be invited when their membership is %q\", m.oldMember.Membership)",
+  "default:",
+  "return nil",
+  "}",
+  "case spec.Knock, spec.Join:",
+  "return m.membershipFailed(\"sender cannot set membership of another user to %q\", m.newMember.Membership)",
+  "default:",
+  "return m.membershipFailed(\"membership %q is unknown\", m.newMember.Membership)",
+  "}"
+]
+
+def eventauth_membershipAllower_membershipAllowedSelf : List String := [
+  "func func() error",
+  "if m.oldMember.Membership == spec.Leave && m.newMember.Membership == spec.Leave {",
+  "return nil",
+  "}",
+  "if m.oldMember.Membership == spec.Ban {",
+  "return m.membershipFailed(\"sender cannot set their own membership to %q\", m.newMember.Membership)",
+  "}",
+  "switch m.newMember.Membership {",
+  "case spec.Knock:",
+  "return m.roomVersionImpl.CheckKnockingAllowed(string(m.roomVersionImpl.Version()), m.senderID, m.targetID, m.joinRule.JoinRule, m.oldMember.Membership)",
+  "case spec.Join:",
+  "if m.joinRule.JoinRule == spec.Restricted || m.joinRule.JoinRule == spec.KnockRestricted {",
+  "if err := m.membershipAllowedSelfForRestrictedJoin(); err != nil {",
+  "return err",
+  "}",
+  "if m.joinRule.JoinRule == spec.Public {",
+  "return nil",
+  "}",
+  "}",
+  "if m.oldMember.Membership == spec.Invite {",
+  "return nil",
+  "}",
+  "if m.oldMember.Membership == spec.Join {",
+  "return nil",
+  "}",
+  "if m.joinRule.JoinRule == spec.Public {",
+  "return nil",
+  "}",
+  "return m.membershipFailed(\"join rule %q forbids it\", m.joinRule.JoinRule)",
+  "case spec.Leave:",
+  "switch m.oldMember.Membership {",
+  "case spec.Join:",
+  "return nil",
+  "case spec.Invite:",
+  "return nil",
+  "case spec.Knock:",
+  "return nil",
+  "default:",
+  "return m.membershipFailed(\"sender cannot leave from membership state %q\", m.oldMember.Membership)",
+  "}",
+  "case spec.Invite, spec.Ban:",
+  "return m.membershipFailed(\"sender cannot set their own membership to %q\", m.newMember.Membership)",
+  "default:",
+  "return m.membershipFailed(\"membership %q is unknown\", m.newMember.Membership)",
+  "}"
+]
+
+def eventauth_membershipAllower_membershipAllowedSelfForRestrictedJoin : List String := [
+  "func func() error",
+  "if err := m.roomVersionImpl.CheckRestrictedJoinsAllowed(); err != nil {",
+  "return errorf(\"restricted joins are not supported in this room version\")",
+  "}",
+  "if m.oldMember.Membership == spec.Join || m.oldMember.Membership == spec.Invite || m.newMember.AuthorisedVia == \"\" {",
+  "m.joinRule.JoinRule = spec.Invite",
+  "return nil",
+  "}",
+  "switch m.roomVersionImpl.Version() {",
+  "case RoomVersionPseudoIDs:",
+  "default:",
+  "if _, _, err := SplitID('@', m.newMember.AuthorisedVia); err != nil {",
+  "return errorf(\"the 'join_authorised_via_users_server' contains an invalid value %q\", m.newMember.AuthorisedVia)",
+  "}",
+  "}",
+  "otherMember, err := m.provider.Member(spec.SenderID(m.newMember.AuthorisedVia))",
+  "if err != nil {",
+  "return errorf(\"failed to find the membership event for 'join_authorised_via_users_server' user %q\", m.newMember.AuthorisedVia)",
+  "}",
+  "if otherMember == nil {",
+  "return errorf(\"failed to find the membership event for 'join_authorised_via_users_server' user %q\", m.newMember.AuthorisedVia)",
+  "}",
+  "otherMembership, err := otherMember.Membership()",
+  "if err != nil {",
+  "return errorf(\"failed to find the membership status for 'join_authorised_via_users_server' user %q\", m.newMember.AuthorisedVia)",
+  "}",
+  "if otherMembership != spec.Join {",
+  "return errorf(\"the nominated 'join_authorised_via_users_server' user %q is not joined to the room\", m.newMember.AuthorisedVia)",
+  "}",
+  "if pl := m.userPowerLevel(spec.SenderID(m.newMember.AuthorisedVia)); pl < m.powerLevels.Invite {",
+  "return errorf(\"the nominated 'join_authorised_via_users_server' user %q does not have permission to invite (%d < %d)\", m.newMember.AuthorisedVia, pl, m.powerLevels.Invite)",
+  "}",
+  "m.joinRule.JoinRule = spec.Public",
+  "return nil"
+]
+
+def eventauth_membershipAllower_membershipFailed : List String := [
+  "func func(format string, args ...interface{}) error",
+  "if m.senderID == m.targetID {",
+  "return errorf(\"%q is not allowed to change their membership from %q to %q as \"+format, append([]interface{}{m.targetID, m.oldMember.Membership, m.newMember.Membership}, args...)...)",
+  "}",
+  "return errorf(\"%q is not allowed to change the membership of %q from %q to %q as \"+format, append([]interface{}{m.senderID, m.targetID, m.oldMember.Membership, m.newMember.Membership}, args...)...)"
+]
+
 def stateresolution__ResolveConflicts : List String := [
   "func func(version RoomVersion, events []PDU, authEvents []PDU, userIDForSender spec.UserIDForSender, isRejectedFn IsRejected) ([]PDU, error)",
   "type stateKeyTuple struct { Type string StateKey string }",
@@ -1070,6 +1927,6 @@ def stateresolutionv2heaps_stateResV2ConflictedPowerLevelHeap_Push : List String
   "*s = append(*s, x)"
 ]
 
-def functions : List String := ["stateresolution.go:.ResolveConflicts", "stateresolution.go:.ResolveConflictsNew", "stateresolution.go:.ResolveStateConflicts", "stateresolution.go:.sortConflictedEventsByDepthAndSHA1", "stateresolution.go:.splitConflictedUnconflicted", "stateresolution.go:conflictedEventSorter.Len", "stateresolution.go:conflictedEventSorter.Less", "stateresolution.go:conflictedEventSorter.Swap", "stateresolution.go:stateResolver.Create", "stateresolution.go:stateResolver.JoinRules", "stateresolution.go:stateResolver.Member", "stateresolution.go:stateResolver.PowerLevels", "stateresolution.go:stateResolver.ThirdPartyInvite", "stateresolution.go:stateResolver.Valid", "stateresolution.go:stateResolver.addAuthEvent", "stateresolution.go:stateResolver.addConflicted", "stateresolution.go:stateResolver.authEventAt", "stateresolution.go:stateResolver.removeAuthEvent", "stateresolution.go:stateResolver.resolveAndAddAuthBlocks", "stateresolution.go:stateResolver.resolveAuthBlock", "stateresolution.go:stateResolver.resolveNormalBlock", "stateresolutionv2.go:.HeaderedReverseTopologicalOrdering", "stateresolutionv2.go:.ResolveStateConflictsV2", "stateresolutionv2.go:.ResolveStateConflictsV2New", "stateresolutionv2.go:.ReverseTopologicalOrdering", "stateresolutionv2.go:.creatorsFromCreateEventOrNone", "stateresolutionv2.go:.eventMapFromEvents", "stateresolutionv2.go:.getCreateEvent", "stateresolutionv2.go:.isControlEvent", "stateresolutionv2.go:.kahnsAlgorithmUsingAuthEvents", "stateresolutionv2.go:.kahnsAlgorithmUsingPrevEvents", "stateresolutionv2.go:.newPDUSet", "stateresolutionv2.go:stateResolverV2.applyEvents", "stateresolutionv2.go:stateResolverV2.authAndApplyEvents", "stateresolutionv2.go:stateResolverV2.calculateAuthDifference", "stateresolutionv2.go:stateResolverV2.calculateAuthDifferenceNew", "stateresolutionv2.go:stateResolverV2.calculateFullAuthChainAndConflictedSubgraph", "stateresolutionv2.go:stateResolverV2.createPowerLevelMainline", "stateresolutionv2.go:stateResolverV2.getFirstPowerLevelMainlineEvent", "stateresolutionv2.go:stateResolverV2.getPowerLevelFromAuthEvents", "stateresolutionv2.go:stateResolverV2.mainlineOrdering", "stateresolutionv2.go:stateResolverV2.reverseTopologicalOrdering", "stateresolutionv2.go:stateResolverV2.wrapOtherEventsForSort", "stateresolutionv2.go:stateResolverV2.wrapPowerLevelEventsForSort", "stateresolutionv2heaps.go:.sortStateResV2ConflictedOtherHeap", "stateresolutionv2heaps.go:.sortStateResV2ConflictedPowerLevelHeap", "stateresolutionv2heaps.go:stateResV2ConflictedOtherHeap.Pop", "stateresolutionv2heaps.go:stateResV2ConflictedOtherHeap.Push", "stateresolutionv2heaps.go:stateResV2ConflictedPowerLevelHeap.Pop", "stateresolutionv2heaps.go:stateResV2ConflictedPowerLevelHeap.Push"]
+def functions : List String := ["eventauth.go:AuthEvents.AddEvent", "eventauth.go:AuthEvents.Clear", "eventauth.go:AuthEvents.Create", "eventauth.go:AuthEvents.JoinRules", "eventauth.go:AuthEvents.Member", "eventauth.go:AuthEvents.PowerLevels", "eventauth.go:AuthEvents.ThirdPartyInvite", "eventauth.go:AuthEvents.Valid", "eventauth.go:NotAllowed.Error", "eventauth.go:StateNeeded.AuthEventReferences", "eventauth.go:StateNeeded.Tuples", "eventauth.go:.Allowed", "eventauth.go:.NewAuthEvents", "eventauth.go:.StateNeededForAuth", "eventauth.go:.StateNeededForProtoEvent", "eventauth.go:.accumulateStateNeeded", "eventauth.go:.allowRestrictedJoins", "eventauth.go:.checkEventLevels", "eventauth.go:.checkKnocking", "eventauth.go:.checkPowerLevelEventV1", "eventauth.go:.checkPowerLevelEventV2", "eventauth.go:.checkPowerLevelEventV3", "eventauth.go:.checkUserLevels", "eventauth.go:.disallowKnocking", "eventauth.go:.disallowRestrictedJoins", "eventauth.go:.errorf", "eventauth.go:.newAllowerContext", "eventauth.go:.thirdPartyInviteToken", "eventauth.go:allowerContext.aliasEventAllowed", "eventauth.go:allowerContext.allowed", "eventauth.go:allowerContext.createEventAllowed", "eventauth.go:allowerContext.defaultEventAllowed", "eventauth.go:allowerContext.memberEventAllowed", "eventauth.go:allowerContext.newEventAllower", "eventauth.go:allowerContext.newMembershipAllower", "eventauth.go:allowerContext.powerLevelsEventAllowed", "eventauth.go:allowerContext.redactEventAllowed", "eventauth.go:allowerContext.resetCreate", "eventauth.go:allowerContext.update", "eventauth.go:allowerContext.userPowerLevel", "eventauth.go:eventAllower.commonChecks", "eventauth.go:membershipAllower.membershipAllowed", "eventauth.go:membershipAllower.membershipAllowedFromThirdPartyInvite", "eventauth.go:membershipAllower.membershipAllowedOther", "eventauth.go:membershipAllower.membershipAllowedSelf", "eventauth.go:membershipAllower.membershipAllowedSelfForRestrictedJoin", "eventauth.go:membershipAllower.membershipFailed", "stateresolution.go:.ResolveConflicts", "stateresolution.go:.ResolveConflictsNew", "stateresolution.go:.ResolveStateConflicts", "stateresolution.go:.sortConflictedEventsByDepthAndSHA1", "stateresolution.go:.splitConflictedUnconflicted", "stateresolution.go:conflictedEventSorter.Len", "stateresolution.go:conflictedEventSorter.Less", "stateresolution.go:conflictedEventSorter.Swap", "stateresolution.go:stateResolver.Create", "stateresolution.go:stateResolver.JoinRules", "stateresolution.go:stateResolver.Member", "stateresolution.go:stateResolver.PowerLevels", "stateresolution.go:stateResolver.ThirdPartyInvite", "stateresolution.go:stateResolver.Valid", "stateresolution.go:stateResolver.addAuthEvent", "stateresolution.go:stateResolver.addConflicted", "stateresolution.go:stateResolver.authEventAt", "stateresolution.go:stateResolver.removeAuthEvent", "stateresolution.go:stateResolver.resolveAndAddAuthBlocks", "stateresolution.go:stateResolver.resolveAuthBlock", "stateresolution.go:stateResolver.resolveNormalBlock", "stateresolutionv2.go:.HeaderedReverseTopologicalOrdering", "stateresolutionv2.go:.ResolveStateConflictsV2", "stateresolutionv2.go:.ResolveStateConflictsV2New", "stateresolutionv2.go:.ReverseTopologicalOrdering", "stateresolutionv2.go:.creatorsFromCreateEventOrNone", "stateresolutionv2.go:.eventMapFromEvents", "stateresolutionv2.go:.getCreateEvent", "stateresolutionv2.go:.isControlEvent", "stateresolutionv2.go:.kahnsAlgorithmUsingAuthEvents", "stateresolutionv2.go:.kahnsAlgorithmUsingPrevEvents", "stateresolutionv2.go:.newPDUSet", "stateresolutionv2.go:stateResolverV2.applyEvents", "stateresolutionv2.go:stateResolverV2.authAndApplyEvents", "stateresolutionv2.go:stateResolverV2.calculateAuthDifference", "stateresolutionv2.go:stateResolverV2.calculateAuthDifferenceNew", "stateresolutionv2.go:stateResolverV2.calculateFullAuthChainAndConflictedSubgraph", "stateresolutionv2.go:stateResolverV2.createPowerLevelMainline", "stateresolutionv2.go:stateResolverV2.getFirstPowerLevelMainlineEvent", "stateresolutionv2.go:stateResolverV2.getPowerLevelFromAuthEvents", "stateresolutionv2.go:stateResolverV2.mainlineOrdering", "stateresolutionv2.go:stateResolverV2.reverseTopologicalOrdering", "stateresolutionv2.go:stateResolverV2.wrapOtherEventsForSort", "stateresolutionv2.go:stateResolverV2.wrapPowerLevelEventsForSort", "stateresolutionv2heaps.go:.sortStateResV2ConflictedOtherHeap", "stateresolutionv2heaps.go:.sortStateResV2ConflictedPowerLevelHeap", "stateresolutionv2heaps.go:stateResV2ConflictedOtherHeap.Pop", "stateresolutionv2heaps.go:stateResV2ConflictedOtherHeap.Push", "stateresolutionv2heaps.go:stateResV2ConflictedPowerLevelHeap.Pop", "stateresolutionv2heaps.go:stateResV2ConflictedPowerLevelHeap.Push"]
 
 end VPins.C10
